@@ -128,7 +128,7 @@ Proof.
   { intros s t. unfold g. destruct (s_dl_topic s) as [t0|] eqn:E; [|intros H; congruence].
     destruct (mem_id t0 chosen) eqn:M; cbn [s_dl_topic]; [discriminate|].
     rewrite E. intros H; inversion H; subst. split; [reflexivity|]. apply mem_id_false. exact M. }
-  apply good_intro; cbn [set_snaps set_topics set_subs topics subs msgs dels snaps];
+  apply good_intro; [reflexivity|..]; cbn [set_snaps set_topics set_subs topics subs msgs dels snaps];
     try apply tbl_ok_refl.
   - apply tbl_ok_del_ids.
   - apply tbl_ok_map. intros; apply Gid.
